@@ -677,19 +677,14 @@ def rint(v):
         else:
             r = fl if fl % 2 == 0 else fl + 1
         return Fraction(r)
-    t = zr(v)
-    fl = z3.ToInt(t)
-    d = t - z3.ToReal(fl)
-    half = z3.RealVal("1/2")
-    r = z3.If(d < half, fl, z3.If(d > half, fl + 1, z3.If(fl % 2 == 0, fl, fl + 1)))
-    return wrap(z3.ToReal(r))
+    return SV(z3.ToReal(F_RINT(_simp(zr(v)))))
 
 
 def rint_int(v):
-    r = rint(v)
-    if is_conc(r):
-        return int(r)
-    return wrap(z3.ToInt(zr(r)))
+    v = norm(v)
+    if is_conc(v):
+        return int(rint(v))
+    return SV(F_RINT(_simp(zr(v))))
 
 
 # ----------------------------------------------------------------------------------------------
@@ -704,6 +699,7 @@ F_SIN = z3.Function("sin", R, R)
 F_ARCCOS = z3.Function("arccos", R, R)
 F_ATAN2 = z3.Function("atan2", R, R, R)
 F_POW = z3.Function("POW", R, R, R)
+F_RINT = z3.Function("rintz", R, z3.IntSort())   # round half to even, integer valued (axioms.py)
 F_ROUND6 = z3.Function("round6", R, R)
 F_ROUND8 = z3.Function("round8", R, R)
 PI = SV(z3.Real("pi"))
@@ -922,3 +918,26 @@ def cx(re_, im_):
 def close(a, b, rel=None, abs_=None):
     """symbolic counterpart of conc.close: exact equality"""
     return cmp("==", a, b)
+
+
+# ----------------------------------------------------------------------------------------------
+# generalisation (sound proof step: a goal proved for a fresh constant holds for every term)
+
+
+def generalize(goal, terms, prefix="gen"):
+    """replace each of `terms` (SV / Cx / z3 terms) in `goal` by a fresh constant of the same sort.
+    Proving the generalised goal proves the original one (universal generalisation); the fresh constants
+    carry no assumptions.  Returns (goal', [fresh SVs])."""
+    g = zb(goal) if isinstance(goal, SV) else goal
+    pairs, fresh = [], []
+    for t in terms:
+        t = norm(t)
+        for part in ((t.re, t.im) if isinstance(t, Cx) else (t,)):
+            if not isinstance(part, SV):
+                continue
+            c = z3.Const(fresh_name(prefix), part.t.sort())
+            pairs.append((part.t, c))
+            fresh.append(SV(c))
+    if pairs:
+        g = z3.substitute(g, *pairs)
+    return g, fresh
